@@ -191,7 +191,7 @@ public:
 		// transform to sign-magnitude
 		_sign = rhs & 0x8000000000000000;
 		unsigned long long magnitude;
-		magnitude = static_cast<unsigned long long>(_sign ? -rhs : rhs);
+		magnitude = _sign ? (0ull - static_cast<unsigned long long>(rhs)) : static_cast<unsigned long long>(rhs); // -rhs is undefined for the most negative value
 		unsigned msb = find_msb(magnitude);
 		if (msb > half_range + capacity) {
 			throw operand_too_large_for_quire{};
